@@ -117,7 +117,10 @@ class ConstraintKMeans(KMeans):
         max_iter = self.max_iter
         self.max_iter //= 2
         if self.kmeans0:
-            KMeans.fit(self, X, y, sample_weight=sample_weight)
+            try:
+                KMeans.fit(self, X, y, sample_weight=sample_weight)
+            finally:
+                self.max_iter = max_iter
             state = None
         else:
             state = numpy.random.RandomState(self.random_state)
